@@ -37,6 +37,9 @@ func rtGenBoxes(r *rand.Rand, n, layout, coord int) []rtree.Box {
 			k := float64(r.Intn(3))
 			c := float64(coord / 2)
 			b = rtree.Box{MinX: c - k, MinY: c - k, MaxX: c + k, MaxY: c + k}
+		case 7: // every item the same degenerate point (with the matching translation: the all-zero box)
+			c := float64(coord / 2)
+			b = rtree.Box{MinX: c, MinY: c, MaxX: c, MaxY: c}
 		case 4: // collinear
 			b = rtree.Box{MinX: x, MinY: 3, MaxX: x + w, MaxY: 3}
 		case 5: // clustered
@@ -79,7 +82,14 @@ func rtGen(r *rand.Rand, n int, tier string, emit func(Case)) {
 		}
 		idbase := []int{1, 0, 0, -5, 100000}[r.Intn(5)]
 		off := []int{0, 0, -coord / 2, -coord, 1000}[r.Intn(5)]
-		emit(Case{"n": sz, "layout": r.Intn(7), "seed": r.Int63(), "searches": searches, "coord": coord, "idbase": idbase, "off": off})
+		layout := r.Intn(7)
+		if r.Intn(12) == 0 {
+			layout = 7
+			if r.Intn(2) == 0 {
+				off = -(coord / 2)
+			}
+		}
+		emit(Case{"n": sz, "layout": layout, "seed": r.Int63(), "searches": searches, "coord": coord, "idbase": idbase, "off": off})
 	}
 }
 
